@@ -30,6 +30,8 @@ pub enum Call {
     Close,
     AddTrx(MediaKind, TransceiverDirection),
     DtlsStart,
+    /// environment: the transport tasks report this peer state (F = Failed, D = Disconnected, C = Connected, G = Connecting)
+    PeerState(char),
 }
 
 #[derive(Clone, Debug)]
@@ -53,7 +55,7 @@ fn src_text(s: &Src) -> String {
 }
 pub fn call_text(c: &Call) -> String {
     match c {
-        Call::CreateOffer => "co".into(), Call::CreateAnswer => "ca".into(), Call::Close => "cl".into(), Call::DtlsStart => "ds".into(),
+        Call::CreateOffer => "co".into(), Call::CreateAnswer => "ca".into(), Call::Close => "cl".into(), Call::DtlsStart => "ds".into(), Call::PeerState(c) => format!("ps{c}"),
         Call::AddTrx(k, d) => format!("at{}{}", kind_ch(*k), dir_ch(*d)),
         Call::SetLocal(s, t) => format!("sl{}{}", src_text(s), ty_ch(*t)),
         Call::SetRemote(s, t) => format!("sr{}{}", src_text(s), ty_ch(*t)),
@@ -67,7 +69,7 @@ pub fn script_text(s: &Script) -> String {
 pub fn parse_call(t: &str) -> Call {
     let cs: Vec<char> = t.chars().collect();
     match &t[..2] {
-        "co" => Call::CreateOffer, "ca" => Call::CreateAnswer, "cl" => Call::Close, "ds" => Call::DtlsStart,
+        "co" => Call::CreateOffer, "ca" => Call::CreateAnswer, "cl" => Call::Close, "ds" => Call::DtlsStart, "ps" => Call::PeerState(cs[2]),
         "at" => Call::AddTrx(parse_kind(cs[2]), parse_dir(cs[3])),
         "sl" | "sr" => {
             let ty = parse_ty(*cs.last().unwrap());
@@ -88,6 +90,10 @@ pub fn parse_script(s: &str) -> Script {
     let p: Vec<&str> = s.split('/').collect();
     let mode = match &p[0][..1] { "w" => TransportMode::WebRtc, "s" => TransportMode::Srtp, _ => TransportMode::Rtp };
     let bad_bind = p[0].ends_with('!');
+    // `#` (replay only, e.g. `vh c09 --replay 'r#/a0,v0/co'`): an exhausted port range — ONE even RTP port is free — in LegacySip mode
+    // (no BUNDLE: every further m-line binds a socket of its own). Not part of the tiers: the one free port would have to be free on
+    // a shared machine in every run, and the model has no second bind site (known finding atom:create_offer:S:*:section-socket-bind)
+    PORTS_EXHAUSTED.store(p[0].ends_with('#'), std::sync::atomic::Ordering::SeqCst);
     let trxs = p[1].split(',').filter(|x| !x.is_empty()).map(|x| { let c: Vec<char> = x.chars().collect(); (parse_kind(c[0]), parse_dir(c[1]), c.len() > 2 && c[2] == 't') }).collect();
     let calls = p[2].split(';').filter(|x| !x.is_empty()).map(parse_call).collect();
     Script { mode, bad_bind, trxs, calls }
@@ -129,9 +135,13 @@ pub fn pool(_mode: &TransportMode) -> Vec<DescSpec> {
         /* 16 */ { let mut a = a0.clone(); a.setup = Some("passive"); let mut d = DescSpec::new(vec![a]); d.session_version = 5; d },  // the offerer takes the other DTLS role
         /* 17 */ { let mut v = v1.clone(); v.extmaps.push(("15".to_string(), URI_TWCC.to_string())); v.dir = "sendrecv";
                    let mut d = DescSpec::new(vec![a_changed.clone(), v]); d.session_version = 6; d }, // re-offer: first section changed, second with extension id 15
+        /* 18 */ { let mut a = a_changed.clone(); a.codecs.push(CodecSpec::new(200, "X", 8000, 0)); a.codecs.push(CodecSpec::new(128, "Y", 16000, 0)); a.ssrc = Some(2222);
+                   a.extmaps = vec![("0".to_string(), URI_AUDIO_LEVEL.to_string()), ("255".to_string(), URI_SDES_MID.to_string()), ("15".to_string(), URI_ABS_SEND_TIME.to_string())];
+                   let mut v = v1.clone(); v.codecs.push(CodecSpec::new(255, "Z", 90000, 0)); v.ssrc = Some(3333);
+                   let mut d = DescSpec::new(vec![a, v]); d.session_version = 7; d }, // payload types 128 / 200 / 255, extension ids 0 / 15 / 255, new SSRCs
     ]
 }
-pub const NPOOL: usize = 18;
+pub const NPOOL: usize = 19;
 
 fn parse_desc(ty: SdpType, text: &str) -> SessionDescription {
     SessionDescription::parse(ty, text).expect("harness-generated SDP must parse")
@@ -294,7 +304,7 @@ fn spec_step(s: SignalingState, c: &Call) -> Option<SignalingState> {
     use SignalingState::*;
     match (s, c) {
         (_, Call::Close) => Some(Closed),
-        (_, Call::AddTrx(..)) | (_, Call::DtlsStart) => Some(s),
+        (_, Call::AddTrx(..)) | (_, Call::DtlsStart) | (_, Call::PeerState(_)) => Some(s),
         (Closed, _) => None,
         (Stable, Call::CreateOffer) | (HaveLocalOffer, Call::CreateOffer) => Some(s),
         (HaveRemoteOffer, Call::CreateAnswer) => Some(s),
@@ -311,7 +321,7 @@ fn spec_step(s: SignalingState, c: &Call) -> Option<SignalingState> {
 fn call_class(c: &Call) -> String {
     match c {
         Call::CreateOffer => "create_offer".into(), Call::CreateAnswer => "create_answer".into(), Call::Close => "close".into(),
-        Call::AddTrx(..) => "add_transceiver".into(), Call::DtlsStart => "dtls_started".into(),
+        Call::AddTrx(..) => "add_transceiver".into(), Call::DtlsStart => "dtls_started".into(), Call::PeerState(_) => "peer_state".into(),
         Call::SetLocal(_, t) => format!("set_local({})", t.as_str()),
         Call::SetRemote(_, t) => format!("set_remote({})", t.as_str()),
     }
@@ -361,7 +371,8 @@ fn diff_fields(a: &Observation, b: &Observation) -> Vec<&'static str> {
 /// failure site in the same (call, state) cell is a different signature.
 fn env_site(e: &RtcError) -> Option<&'static str> {
     let m = e.to_string();
-    if m.contains("RTP socket bind failed") { Some("offer-socket-bind") }
+    if m.contains("RTP socket bind failed") && m.contains("No available even RTP ports") { Some("section-socket-bind") }
+    else if m.contains("RTP socket bind failed") { Some("offer-socket-bind") }
     else if m.contains("RTP direct error") { Some("rtp-media-transport-bind") }
     else if m.contains("ICE direct error: No local candidates") { Some("srtp-start-direct-no-candidate") }
     else if m.contains("os error") || m.contains("direct error") { Some("other-io") }
@@ -373,8 +384,15 @@ fn env_site(e: &RtcError) -> Option<&'static str> {
 
 pub struct Outcome { pub input: String, pub output: String, pub fails: Vec<(String, String)>, pub n_err: usize, pub n_ok: usize, pub states: Vec<SignalingState> }
 
+static PORTS_EXHAUSTED: std::sync::atomic::AtomicBool = std::sync::atomic::AtomicBool::new(false);
+
 fn config(mode: &TransportMode, bad_bind: bool) -> RtcConfiguration {
     let mut c = RtcConfiguration::default();
+    if PORTS_EXHAUSTED.load(std::sync::atomic::Ordering::SeqCst) {
+        c.sdp_compatibility = rustrtc::SdpCompatibilityMode::LegacySip;
+        c.rtp_start_port = Some(47916);
+        c.rtp_end_port = Some(47916);
+    }
     c.transport_mode = mode.clone();
     // `bad_bind`: an address this host does not own (TEST-NET-3) — every socket bind fails
     c.bind_ip = Some(if bad_bind { "203.0.113.77".into() } else { "127.0.0.1".into() });
@@ -431,6 +449,11 @@ pub async fn exec(sc: &Script) -> Outcome {
             Call::Close => { pc.close(); ("cl".into(), Ok(())) }
             Call::AddTrx(k, d) => { pc.add_transceiver(*k, *d); (format!("at,{},{}", kind_name(*k), tdir_name(*d)), Ok(())) }
             Call::DtlsStart => ("ds".into(), pc.verif_mark_dtls_started().await),
+            Call::PeerState(c) => {
+                use rustrtc::PeerConnectionState as P;
+                pc.verif_set_peer_state(match c { 'F' => P::Failed, 'D' => P::Disconnected, 'C' => P::Connected, _ => P::Connecting });
+                (format!("ps,{c}"), Ok(()))
+            }
             Call::SetLocal(src, ty) => {
                 let d = resolve(src, *ty, &pc, &last_created);
                 (format!("sl,{}", desc_token(&mut t, &d)), pc.set_local_description(d))
@@ -472,6 +495,8 @@ pub async fn exec(sc: &Script) -> Outcome {
                             // since the round-3 fixes both SDES-SRTP sites fail before anything is recorded
                             "srtp-start-direct-no-candidate" => &[],
                             "offer-socket-bind" => &[],
+                            // exhausted port range, non-bundled offer (replay-only environment `#`): the per-section bind follows the mid assignment
+                            "section-socket-bind" => &["transceivers", "conn"],
                             _ => &[] };
                         let extra: Vec<&str> = groups.iter().copied().filter(|g| !allowed.contains(g)).collect();
                         let sig = if extra.is_empty() { format!("atom:{cls}:{st}:{}:{site}", mode_ch(&sc.mode)) }
@@ -585,7 +610,8 @@ fn random_call(rng: &mut Rng) -> Call {
         44..=78 => { let s = match rng.below(10) { 0..=4 => Src::Pool(rng.below(NPOOL as u64) as usize), 5..=8 => Src::AnswerTo(rng.below(4) as u8), _ => Src::Last }; let t = ty(rng); Call::SetRemote(s, t) }
         79..=84 => Call::Close,
         85..=92 => Call::AddTrx(*rng.pick(&[MediaKind::Audio, MediaKind::Video, MediaKind::Application]), parse_dir(*rng.pick(&['0', '1', '2', '3']))),
-        _ => Call::DtlsStart,
+        93..=96 => Call::DtlsStart,
+        _ => Call::PeerState(*rng.pick(&['F', 'F', 'D', 'C', 'G'])),
     }
 }
 
@@ -718,7 +744,11 @@ pub fn run(args: &Args) {
                "r!/a0,a0/srP9o;ca", "r!/v0/srP4o;ca", "r!/a0/slP0o;srA0a;srP11o", "s!/a0/co", "s!/a0/srP0o;ca", "s!/a0/slP0o;srA0a",
                "s!/a0t,v2/co", "s!/a0t,v2/srP1o", "s!/a0/slP0o;srA0p", "s!/a0t,v2,a3/srP11o", "s!/a0t,v2,a3/srP4o", "s!/a0t,v2,a3/co;co", "w!/a0/co;slLo;srA0a", "w!/a0/srP0o;ca;slLa",
                "w/a0/srP0o;ca;slLa;ds;srP16o;ca", "w/a0/srP0o;ca;slLa;srP16o;ca", "w/a0/srP15o;ca;slLa;srP0o", "w/a0/co;slLo;srA0p;srA0a",
-               "w/a0t,v2,a3/srP1o;ca;slLa;srP17o;ca", "s/a0t,v2,a3/srP1o;ca;slLa;srP17o", "w/a0t,v2,a3/srP1o;srP17o"] {
+               "w/a0t,v2,a3/srP1o;ca;slLa;srP17o;ca", "s/a0t,v2,a3/srP1o;ca;slLa;srP17o", "w/a0t,v2,a3/srP1o;srP17o",
+               // close() from every peer state the transport tasks can leave behind
+               "w/a0/psF;cl;co", "w/a0/co;slLo;psF;cl;slLo", "r/a0/srP0o;psD;cl;ca", "w/a0/psC;cl;srP0o", "s/a0/psG;cl;co", "w/a0/psF;co;cl;cl",
+               // a re-INVITE whose rtpmap / extmap numbers lie outside everything the other pool entries use
+               "w/a0t,v2,a3/srP1o;ca;slLa;srP18o;ca", "r/a0t,v2,a3/srP1o;ca;slLa;srP18o", "w/a0t,v2,a3/srP1o;srP18o", "w/a0/srP0o;ca;slLa;srP18o"] {
         emit(&mut run, &mut rt, &parse_script(sc));
         run.count("bind_fails_directed");
     }
